@@ -159,6 +159,20 @@ def stepOpen (d : DState) (line : String) : DState × String :=
       let (s2, o) := finish s s1 [s!"ep {clientEpoch s1.clients cid}", tblStr s1 cid]
       ({ d with s := s2 }, o)
     | _, _ => (d, "bad-op")
+  | ["panicloop"] =>
+    -- the real batchSendLoop runs with the failpoint: reset, fetchAllPendingRequests, PANIC, recover + restart; the
+    -- restarted loop is woken with two nil sentinels: reset, getClientAndSend, reset, exit (queue empty).  All clients
+    -- are unlocked and unlimited for the duration so that the queue drains in one getClientAndSend.
+    if s.ch.isEmpty then (d, "empty") else
+    let lims := s.clients.map (·.limit)
+    let sA := (List.range s.clients.length).foldl (fun s c => step s (.setlimit c 1000000000)) (unlockAll s)
+    let s0 := [Op.breset, .fetch chCap, .panicRecover, .breset].foldl step sA
+    -- the restarted loop leaves at the first nil sentinel if nothing is queued (everything fetched was canceled)
+    let s1 := if s0.heap.isEmpty then s0 else [Op.flush, .breset].foldl step s0
+    let s2 := (List.range s1.clients.length).foldl (fun s c => step s (.setlimit c (lims.getD c 0))) s1
+    let tbls := (List.range s2.clients.length).map (tblStr s2)
+    let (s3, o) := finish s s2 ([s!"ida {s2.idAlloc}", s!"q {natList s2.heap}"] ++ tbls)
+    ({ s := s3, dirty := false }, o)
   | ["cancel", h] =>
     match h.toNat? with
     | some h => let (s2, o) := finish s (step s (.cancel h)) ["cancel"]; ({ d with s := s2 }, o)
